@@ -36,6 +36,10 @@ class FakeServer:
         self.rig.sock._shutdown_socket()
 
 
+import functools
+
+
+@functools.lru_cache(maxsize=None)
 def echo_rq_bytes(msg_id=1, ctx=1) -> bytes:
     from pynetdicom.dimse_messages import C_ECHO_RQ
     from pynetdicom.pdu import P_DATA_TF
@@ -52,6 +56,7 @@ def echo_rq_bytes(msg_id=1, ctx=1) -> bytes:
     return out
 
 
+@functools.lru_cache(maxsize=None)
 def echo_rsp_bytes(msg_id=1, ctx=1) -> bytes:
     from pynetdicom.dimse_messages import C_ECHO_RSP
     from pynetdicom.pdu import P_DATA_TF
@@ -69,6 +74,7 @@ def echo_rsp_bytes(msg_id=1, ctx=1) -> bytes:
     return out
 
 
+@functools.lru_cache(maxsize=None)
 def bad_msg_bytes(ctx=1) -> bytes:
     """A complete command set that decodes as a data set but is no DIMSE message (-> Evt19)."""
     from pydicom.dataset import Dataset
@@ -217,6 +223,17 @@ class Rig:
         self.ctl.register("assoc", assoc)
         self.ctl.register("user", None)
         self.ctl.boundary = boundary or default_boundary
+        # scripted C-ECHO handler: may abort the association from inside the handler
+        self.next_handler_abort = False
+        self.handler_calls = 0
+
+        def on_echo(event):
+            self.handler_calls += 1
+            if self.next_handler_abort:
+                event.assoc.abort()
+            return 0x0000
+
+        assoc.bind(evt.EVT_C_ECHO, on_echo)
 
     # -- module-level substitutions (one rig at a time) ---------------------------
     def _install(self):
